@@ -19,6 +19,8 @@ trap 'rm -rf "$SCR"' EXIT
 rsync -a --exclude .git "$REPO"/ "$SCR/snes"/ || { echo "run.sh: copy failed" >&2; exit 2; }
 [ -x "$VERIF/bin/instrument" ] || (cd "$VERIF" && go build -o bin/instrument ./cmd/instrument) || { echo "run.sh: building instrument failed" >&2; exit 2; }
 "$VERIF/bin/instrument" "$SCR/snes" >"$SCR/instrument.log" 2>&1 || { cat "$SCR/instrument.log" >&2; echo "run.sh: instrumentation failed" >&2; exit 2; }
+# goroutines the library starts itself are not under the simulator's scheduler (DESIGN 9.7)
+export SIM_LIB_GOSTMTS="$(sed -n 's/^instrument: gostmts=//p' "$SCR/instrument.log")"
 
 cat >"$SCR/go.mod" <<EOM
 module verif
